@@ -136,6 +136,7 @@ class Ctx:
         self.new_run()
         self.default_result = None
         self.extra = {}
+        self.sched = None  # set by harnesses that run several cases under the thread scheduler
 
     def new_run(self):
         self.counts = {}
@@ -154,6 +155,12 @@ class Ctx:
         k = menu[self.chooser.choose(("beh", stage, n), len(menu))]
         self.memo[key] = k
         return k
+
+
+def stage_point(ctx, stage):
+    """Under the thread scheduler every stage body is a scheduling point."""
+    if ctx.sched is not None:
+        ctx.sched.point("stage." + stage)
 
 
 def perform(case, ctx, stage, kind):
@@ -224,6 +231,7 @@ ACTION_HANDLERS = {}
 
 def _cleanup(case, ctx, cid):
     stage = "c:" + cid
+    stage_point(ctx, stage)
     ctx.xlog.append(("run", stage))
     run_actions(case, ctx, stage)
     perform(case, ctx, stage, ctx.decide(stage))
@@ -250,6 +258,7 @@ def make_class(config):
 
         def setUp(self):
             ctx = self._vt_ctx
+            stage_point(ctx, "setUp")
             ctx.xlog.append(("run", "setUp"))
             run_actions(self, ctx, "setUp.pre")
             k = ctx.decide("setUp")
@@ -261,6 +270,7 @@ def make_class(config):
 
         def test_it(self):
             ctx = self._vt_ctx
+            stage_point(ctx, "test")
             ctx.xlog.append(("run", "test"))
             run_actions(self, ctx, "test")
             if ctx.config.expect_mismatch:
@@ -269,6 +279,7 @@ def make_class(config):
 
         def tearDown(self):
             ctx = self._vt_ctx
+            stage_point(ctx, "tearDown")
             ctx.xlog.append(("run", "tearDown"))
             run_actions(self, ctx, "tearDown")
             k = ctx.decide("tearDown")
